@@ -40,6 +40,7 @@ OBLIGATIONS = [
     "Grog.C18.return_cancels_all",
     "Grog.C18.exit_nonzero",
     "Grog.C18.interrupted_walk_finishes",
+    "Grog.C18.silent_success_witness_old",
     "Grog.C18.exit_nonzero_all_phases",
     "Grog.C18.run_binary_not_started_after_cancel",
     "Grog.Compose.next_build_ok",
@@ -760,6 +761,26 @@ def run(ctx):
                             f"1 s) + {len(results)} CLI builds of slow targets (0.2-0.8 s sleeps, chain/fan/diamond, 1/2/4 workers, optional directory output) hit by SIGINT or "
                             "SIGTERM after 0..2.6 s, each followed by a second build; plus survivor runs (target shell records $$, long foreground child; scripts that do not handle / trap / "
                             "ignore TERM+INT): shell gone after grog's exit, nothing written afterwards, next build gets the lock; non-trivial = cancelled before Walk returned / interrupted before the build finished")
+    # ---- (a2) Walk entered with an already cancelled context (signal during loading / selection / lock): never a silent success ----
+    import vlib
+    d = ctx.scratch("precancel")
+    outp = os.path.join(d, "out.jsonl")
+    nwalks = 40000 if quick else 400000
+    rc, tout = vlib.go_test("./internal/dag/", "TestVerifPreCancelled$", timeout=1500,
+                            env_extra={"VERIF_PRECANCEL_WALKS": str(nwalks), "VERIF_WALKER_OUT": outp})
+    pre = [json.loads(l) for l in open(outp)] if os.path.exists(outp) else []
+    if rc != 0 or not pre:
+        ctx.harness_broken("go test of the pre-cancelled walk harness failed to build/run against the current tree", tout)
+    ctx.coverage["precancelled_walks"] = {str(r["n"]): {"walks": r["walks"], "silent_success": r["silent"]} for r in pre}
+    for r in pre:
+        if r["silent"]:
+            oracle_fail += 1
+            ctx.violation(f"Walk was entered with a cancelled context, every callback reported context.Canceled, and in {r['silent']} of {r['walks']} walks over "
+                          f"{r['n']} independent targets it returned (no error, no failed completion, targets unbuilt): RunBuild then prints "
+                          "'Build completed successfully' and exits 0 after an interrupt",
+                          {"kind": "oracle", "oracle": "a cancelled walk never reports success", "n": r["n"], "walks": r["walks"], "silent": r["silent"],
+                           "how": "harness/intest/internal/dag/zz_verif_precancel_test.go (TestVerifPreCancelled)"},
+                          signature="cancelled-walk-reports-success")
     # ---- (c) random CLI worlds of the shared generator, each with an interrupt on a build that is followed by another one ----
     if ctx.grog_binary() is not None:
         wres, wcov = _cliworld.run_worlds(ctx, 10 if quick else 150, None, interrupt_all=True)
